@@ -31,4 +31,7 @@ func init() {
 	alias("C01", "R11", "C13", "R1", "a node that catches up by block sync also decides: it may apply a block only if a +2/3 commit covers exactly the hash and part-set header of the block it downloaded")
 	alias("C06", "R7", "C07", "R1", "a block is valid only if its last commit is a valid +2/3 commit of the previous validator set with every present signature checked (block validation calls the full verifier)")
 	alias("C17", "R8", "C10", "R1", "a block part from a peer is indexed into the part set only behind the bounds and proof checks: a hostile index must not panic the consensus routine")
+	alias("C05", "R13", "C13", "R9", "store, state and application agree after a crash also while catching up: a block is stored before it is executed")
+	alias("C06", "R8", "C12", "R2", "a correct proposer's block fits the limits only if the mempool reaps by the encoded (proto) size of the transactions")
+	alias("C06", "R9", "C05", "R12", "re-running the last block on the recorded responses must yield the same next state as the live run (validator and consensus-parameter updates included)")
 }
